@@ -1,4 +1,5 @@
 """Per-property pipelines of ./check."""
+import glob
 import os, sys, json, random, hashlib, re
 from core import *
 import tour
@@ -688,25 +689,56 @@ def c14(ctx):
                 "or the kind rank orders (Xsd.tla exact decimal arithmetic), later keys breaking ties of same terms, and that ONE total preorder explains all outputs of a batch. evaluations = ORDER BY runs" % n)
 
 
-def rt_validate(ctx, tr, what):
-    trace = read_trace(tr)
-    mism = trace_check(ctx, "Trace_RoundTrip", tr, timeout=6000, tag="Trace_RoundTrip_" + what)
-    bad = set()
-    for line, fields in mism:
-        e = trace[line - 1]
-        bad.add(line)
-        code = fields[0]
-        inp = e if e["ev"] == "RT" else e.get("input", {})
-        cfgs = "%s/%s" % (inp.get("fmt"), "pretty" if inp.get("pretty") else "streaming")
-        text = uncps(e["text"])[:400] if e.get("text") else ""
-        msg = e["out"]["msg"][:160] if e.get("out") else e.get("why", "")
-        detail = "%s [%s, prefix map %s, indentation %s]: in = { %s } ; document = %r ; %s" % (code, cfgs, inp.get("pm"), inp.get("indent"), show_quads(inp.get("in", [])), text, msg)
-        ctx.violations.append({"key": "%s/%s" % (code, cfgs), "detail": detail, "event": e, "trace": tr, "line": line})
-    ctx.traces_validated += len(trace) - len(bad)
-    for e in trace:
-        if e["ev"] == "RT":
-            ctx.distinct.add(h([e["fmt"], e["pretty"], e["pm"], e["indent"], e["in"]]))
-    return trace
+def rt_validate(ctx, tr, what, chunk_bytes=120_000_000):
+    """Events are judged one by one (each carries its input), so a large trace is validated in byte-bounded chunks: neither TLC's
+    JSON reader nor this process ever holds more than one.  Returns the first events (for the samples of the evidence file)."""
+    head = []
+
+    def flush(lines, idx, whole):
+        if not lines:
+            return
+        part = tr if whole else "%s.part%d" % (tr, idx)
+        if not whole:
+            with open(part, "w") as f:
+                f.writelines(lines)
+        trace = [json.loads(l) for l in lines]
+        mism = trace_check(ctx, "Trace_RoundTrip", part, timeout=6000, tag="Trace_RoundTrip_%s%s" % (what, "" if whole else "_%d" % idx))
+        bad = set()
+        for line, fields in mism:
+            e = trace[line - 1]
+            bad.add(line)
+            code = fields[0]
+            inp = e if e["ev"] == "RT" else e.get("input", {})
+            cfgs = "%s/%s" % (inp.get("fmt"), "pretty" if inp.get("pretty") else "streaming")
+            text = uncps(e["text"])[:400] if e.get("text") else ""
+            msg = e["out"]["msg"][:160] if e.get("out") else e.get("why", "")
+            detail = "%s [%s, prefix map %s, indentation %s]: in = { %s } ; document = %r ; %s" % (code, cfgs, inp.get("pm"), inp.get("indent"), show_quads(inp.get("in", [])), text, msg)
+            ctx.violations.append({"key": "%s/%s" % (code, cfgs), "detail": detail, "event": e, "trace": part, "line": line})
+        ctx.traces_validated += len(trace) - len(bad)
+        for e in trace:
+            if e["ev"] == "RT":
+                ctx.distinct.add(h([e["fmt"], e["pretty"], e["pm"], e["indent"], e["in"]]))
+        if len(head) < 1000:
+            head.extend(trace[:1000 - len(head)])
+        if not whole and not mism:
+            os.remove(part)
+
+    chunk_bytes = int(os.environ.get("SV_RT_CHUNK_BYTES", chunk_bytes))
+    for stale in glob.glob(tr + ".part*"):
+        os.remove(stale)
+    whole = os.path.getsize(tr) <= chunk_bytes
+    lines, size, idx = [], 0, 0
+    with open(tr, encoding="utf-8", errors="replace") as f:
+        for l in f:
+            if not l.strip():
+                continue
+            if size + len(l) > chunk_bytes and lines:
+                flush(lines, idx, False)
+                lines, size, idx = [], 0, idx + 1
+            lines.append(l)
+            size += len(l)
+    flush(lines, idx, whole and idx == 0)
+    return head
 
 
 def c04(ctx):
